@@ -368,6 +368,59 @@ func runC20(c *Ctx) {
 		}
 	}()
 
+	// ---- C20.signext
+	rule = "C20.signext"
+	c.R.Rule(rule, "sign extension of the wide-integer constructors from int: Int128FromInt / Int256FromInt set every 64-bit word above the lowest to all ones exactly under the `v < 0` test of their argument (one such word for 128 bits, three for 256 bits), the lowest word is the converted argument")
+	func() {
+		for name, upper := range map[string]int{"Int128FromInt": 1, "Int256FromInt": 3} {
+			fn := p.Func(core.PkgProto, name)
+			if fn == nil {
+				c.R.Unk(rule, "proto."+name, cfg, "", "constructor missing")
+				continue
+			}
+			neg := core.CondEdges(fn, true, func(cond ssa.Value) (bool, bool) {
+				bo, ok := cond.(*ssa.BinOp)
+				if !ok || bo.Op != token.LSS {
+					return false, false
+				}
+				_, isParam := bo.X.(*ssa.Parameter)
+				k, okc := core.ConstInt(bo.Y)
+				return true, isParam && okc && k == 0
+			})
+			n := 0
+			isMax := func(v ssa.Value) bool {
+				cst, ok := v.(*ssa.Const)
+				return ok && cst.Value != nil && cst.Uint64() == ^uint64(0) && cst.Value.String() != "-1"
+			}
+			for _, b := range fn.Blocks {
+				for _, in := range b.Instrs {
+					switch x := in.(type) {
+					case *ssa.Store:
+						if isMax(x.Val) && len(neg) > 0 && core.OnlyViaEdges(fn, x, neg) {
+							n++
+						}
+					case *ssa.Phi:
+						for i, e := range x.Edges {
+							if isMax(e) && len(neg) > 0 {
+								pred := b.Preds[i]
+								if core.OnlyViaEdges(fn, pred.Instrs[len(pred.Instrs)-1], neg) {
+									n++
+								}
+							}
+						}
+					}
+				}
+			}
+			if len(neg) == 0 {
+				c.R.Bad(rule, "proto."+name, cfg, p.Pos(fn.Pos()), "no `v < 0` test: negative arguments are not sign-extended")
+			} else if n < upper {
+				c.R.Bad(rule, "proto."+name, cfg, p.Pos(fn.Pos()), sprintf("only %d of the %d upper 64-bit words are set to all ones for a negative argument", n, upper))
+			} else {
+				c.R.Ok(rule, "proto."+name, cfg, p.Pos(fn.Pos()), sprintf("%d upper word(s) = MaxUint64 under v < 0", n))
+			}
+		}
+	}()
+
 	// ---- C20.family
 	rule = "C20.family"
 	c.R.Rule(rule, "no conversion between distinct temporal scalar types (Date, Date32, DateTime, DateTime64) inside the column methods: a Date32 column that goes through the 16-bit Date helper wraps every day outside 1970..2149")
